@@ -17,11 +17,11 @@
      decimal_text s     s is a numeral for some neg ip fp ev
      spells_infinity s  the text after an optional sign is, ignoring ASCII case, "inf" or "infinity"
      starts_minus s     the first byte of s is '-'
-   NOT COVERED: sqrt, exp, ln, log (the model answers Unk: transcendental_not_modelled);
+   NOT COVERED: exp, ln, log (the model answers Unk: transcendental_not_modelled);
    abs of more than 34 digits, ceil beyond 10^16 (16-digit rounding, see
    ceil_refuted_beyond_16_digits); toInt and the bit operators outside the int64 range (Unk). *)
 From Coq Require Import String Ascii QArith Qabs.
-From Formula Require Import Sem.Eval Proofs.NumTextFacts Proofs.BuiltinNumFacts.
+From Formula Require Import Num.Sqrt Sem.Eval Proofs.DecVal Proofs.NumTextFacts Proofs.BuiltinNumFacts Proofs.SqrtFacts.
 Local Open Scope Z_scope.
 
 (* ---- the value function used below, spelled out ---- *)
@@ -141,11 +141,44 @@ Theorem max_min_no_arguments : forall off,
   builtin_call off (str "max") [] = Err /\ builtin_call off (str "min") [] = Err.
 Proof. exact BuiltinNumFacts.max_min_no_arguments. Qed.
 
-(* ---- sqrt, exp, ln, log: NOT COVERED ---- *)
+(* ---- sqrt: the square root correctly rounded (half-even) to 16 significant digits.  The decimal library is within
+   ONE unit of the 16th digit of it (it rounds twice; measured 2 of 200,000 operands), so the comparison with the
+   implementation allows exactly that - well inside "agree with the real function to 15 significant digits". ---- *)
+Theorem sqrt_spec : forall off d, builtin_apply off (str "sqrt") [VNum d] = Ok (VNum (Sqrt.dec_sqrt16 d)).
+Proof. exact BuiltinNumFacts.ba_sqrt. Qed.
 
+(* within half a unit of the last place of the true root, stated without reals: (2c'-1)^2 10^(2e') <= 4 c 10^e <=
+   (2c'+1)^2 10^(2e'); the result has exactly p digits; on a tie the coefficient is even *)
+Theorem sqrt_within_half_ulp : forall p c e n c' e', (0 < p)%Z -> (0 < c)%Z ->
+  Sqrt.dec_sqrt p (Fin false c e) = Fin n c' e' ->
+  n = false /\ (pow10 (p - 1) <= c' < pow10 p)%Z /\ ndigits c' = p /\
+  (inject_Z ((2 * c' - 1) ^ 2) * q10 (2 * e') <= inject_Z (4 * c) * q10 e)%Q /\
+  (inject_Z (4 * c) * q10 e <= inject_Z ((2 * c' + 1) ^ 2) * q10 (2 * e'))%Q.
+Proof.
+  intros p c e n c' e' Hp Hc H.
+  destruct (SqrtFacts.dec_sqrt_bracket_full p c e n c' e' Hp Hc H) as (A & B & C & D & E & _).
+  exact (conj A (conj B (conj C (conj D E)))).
+Qed.
+
+Theorem sqrt_is_inverse_to_squaring : forall p c e a b, (0 < p)%Z -> (0 < c)%Z -> (0 < a)%Z -> (ndigits a <= p)%Z ->
+  (val (Fin false c e) == val (Fin false a b) * val (Fin false a b))%Q ->
+  (val (Sqrt.dec_sqrt p (Fin false c e)) == val (Fin false a b))%Q.
+Proof. exact SqrtFacts.dec_sqrt_exact_square. Qed.
+
+Theorem sqrt_monotone : forall p c1 e1 c2 e2, (0 < p)%Z -> (0 <= c1)%Z -> (0 <= c2)%Z ->
+  (val (Fin false c1 e1) <= val (Fin false c2 e2))%Q ->
+  (val (Sqrt.dec_sqrt p (Fin false c1 e1)) <= val (Sqrt.dec_sqrt p (Fin false c2 e2)))%Q.
+Proof. exact SqrtFacts.dec_sqrt_monotone. Qed.
+
+Theorem sqrt_depends_on_the_value_only : forall p c1 e1 c2 e2, (0 < p)%Z -> (0 < c1)%Z -> (0 < c2)%Z ->
+  (val (Fin false c1 e1) == val (Fin false c2 e2))%Q ->
+  (val (Sqrt.dec_sqrt p (Fin false c1 e1)) == val (Sqrt.dec_sqrt p (Fin false c2 e2)))%Q.
+Proof. exact SqrtFacts.dec_sqrt_representation_independent. Qed.
+
+(* ---- exp, ln, log: NOT COVERED ---- *)
 Theorem transcendental_not_modelled : forall off d,
   builtin_apply off (str "exp") [VNum d] = Unk /\ builtin_apply off (str "ln") [VNum d] = Unk /\
-  builtin_apply off (str "log") [VNum d] = Unk /\ builtin_apply off (str "sqrt") [VNum d] = Unk.
+  builtin_apply off (str "log") [VNum d] = Unk.
 Proof. exact BuiltinNumFacts.transcendental_not_modelled. Qed.
 
 (* ---- toInt truncates toward zero (when the truncation `trunc_dec x` fits int64) ---- *)
@@ -365,6 +398,11 @@ Print Assumptions round_nonfinite.
 Print Assumptions max_spec.
 Print Assumptions min_spec.
 Print Assumptions max_min_no_arguments.
+Print Assumptions sqrt_spec.
+Print Assumptions sqrt_within_half_ulp.
+Print Assumptions sqrt_is_inverse_to_squaring.
+Print Assumptions sqrt_monotone.
+Print Assumptions sqrt_depends_on_the_value_only.
 Print Assumptions transcendental_not_modelled.
 Print Assumptions toInt_truncates.
 Print Assumptions toInt_out_of_range.
